@@ -15,7 +15,7 @@ Members(r) == IF r.svc = "multi" THEN r.ms ELSE <<r>>
 VARIABLES t, l, mem, prog,     \* prog[id] = -1 not invoked, k >= 0 members taken effect, 1000 = responded
           ctab                \* open connections <<session, serial>>
 tvars == <<t, l, mem, prog, ctab>>
-IsConn(r) == r.svc \in {"fwdopen", "fwdclose"}
+IsConn(r) == r.svc \in {"fwdopen", "fwdclose", "end"}
 T == Traces[t]
 Ev == T.ev
 TInit == t \in 1 .. Len(Traces) /\ l = 1 /\ mem = Traces[t].mem0 /\ prog = [ i \in 1 .. Len(Traces[t].ops) |-> 0 - 1 ] /\ ctab = {}
@@ -26,7 +26,8 @@ MemberReplies(op) == IF op.r.svc = "multi"
                      ELSE <<op.rpy>>
 \* the success reply of a Forward Open (the target picks the O->T id of a point-to-point connection: any 4 octets) / Forward Close
 ConnReplyOK(r, cip) ==
-  IF r.svc = "fwdclose" THEN cip = EncForwardCloseReply(r.fo)
+  IF r.svc = "end" THEN cip = <<>>                  \* (the session ended: no reply)
+  ELSE IF r.svc = "fwdclose" THEN cip = EncForwardCloseReply(r.fo)
   ELSE LET fo2 == [r.fo EXCEPT !.ot.id = IF r.fo.ot.type = 2 /\ Len(cip) >= 12 THEN SubSeq(cip, 5, 8) ELSE @,
                                !.to.id = IF r.fo.to.type = 1 /\ Len(cip) >= 12 THEN SubSeq(cip, 9, 12) ELSE @] IN
        cip = EncForwardOpenReply(fo2, r.fo.ot.rpi, r.fo.to.rpi)
@@ -44,7 +45,8 @@ Lin == /\ l <= Len(Ev) /\ UNCHANGED <<t, l>>
             /\ k >= 0 /\ k < Len(ms) /\ Len(rs) = Len(ms)
             /\ IF IsConn(op.r)
                THEN /\ ConnReplyOK(op.r, op.rpy) /\ UNCHANGED mem
-                    /\ ctab' = IF op.r.svc = "fwdopen" THEN ctab \cup { <<op.s, op.r.fo.serial>> } ELSE ctab \ { <<op.s, op.r.fo.serial>> }
+                    /\ ctab' = IF op.r.svc = "fwdopen" THEN ctab \cup { <<op.s, op.r.fo.serial>> }
+                               ELSE IF op.r.svc = "end" THEN { c \in ctab : c[1] # op.s } ELSE ctab \ { <<op.s, op.r.fo.serial>> }
                ELSE /\ \E m2 \in After1(T.cfg, mem, ms[k + 1], rs[k + 1]) : mem' = m2
                     /\ UNCHANGED ctab
             /\ prog' = [prog EXCEPT ![id] = k + 1]
